@@ -46,6 +46,12 @@ CLAIMED = {
     "C13": ("rapid histories of (add content, authorize/query, Reset) rounds on one authorizer with related consecutive rounds; each round compared with a fresh authorizer",
             "Every round's outcome and panel answers on the reused authorizer must equal those of a fresh authorizer given only that round's content; histories where a leak would be visible are counted as non-trivial.",
             "Compares two executions of the library; verdict correctness itself is C04's subject.", "4/C13"),
+    "C14": ("rapid grammar-directed texts with random layout and explicit parenthesisation vs independently computed structure; must-error texts; token-level corruptions and native text fuzzing for panics on parse and on first use",
+            "For every generated text of the documented grammar (six entry points) the parsed facts / rules / checks / policies must equal the structure the generator computed itself (own postfix emission, grouping markers, parameter substitution, dates as instants); texts the property lists as errors must be rejected; no text may make a parse function, or the first use of a parsed element, panic.",
+            "Identifiers avoid the prefixes the lexer reserves; canonical decimal integers; strings without quote/backslash; time.Parse(RFC3339) shared.", "4/C14"),
+    "C15": ("rapid grammar-generated blocks in the printable domain placed at every block position; print -> split -> parse = original parse (round trip through printer and parser)",
+            "The text the library prints for the block (Code() for later blocks, the authority section of String() for position 0) must parse back, element by element, to exactly the structure of the original parse; String() and Code() must be identical before and after serialization and never panic.",
+            "Printable domain as named by the property; Code() layout (one element per line) is relied on for splitting.", "4/C15"),
     "C16": ("rapid ids x derivation histories x key maps and defaults; id preserved along the history (API and independent wire reader); lookup model",
             "RootKeyID and the serialized identifier must equal the creation identifier after every append / seal / reload; AuthorizerFor(WithRootPublicKeys) must succeed iff the model projection selects the real root key, fail with ErrNoPublicKeyAvailable iff it selects nothing, and fail otherwise when it selects a wrong key.",
             "Independent wire reader trusted.", "4/C16"),
